@@ -292,6 +292,17 @@ func (w *World) axiomText(text string) string {
 			}
 		}
 	}
+	if containsSym(all, "tagty") {
+		n := len(w.TagNames)
+		for id := 1; id <= n; id++ {
+			if pt, ok := w.tagTypes()[id].(*types.Pointer); ok {
+				if eid, ok := w.TagOf[types.TypeString(pt.Elem(), nil)]; ok {
+					fmt.Fprintf(&out, "(assert (= (tagty %d) %d))\n", id, eid)
+				}
+			}
+		}
+		fmt.Fprintf(&out, "(assert (forall ((t Int)) (! (=> (> t %d) (> (tagty t) %d)) :pattern ((tagty t)))))\n", n, n)
+	}
 	if containsSym(all, "strkey") {
 		out.WriteString("(declare-fun strkey (BSeq) Int)\n(assert (forall ((a BSeq) (b BSeq)) (! (=> (= (strkey a) (strkey b)) (= a b)) :pattern ((strkey a) (strkey b)))))\n")
 		all += " blen"
